@@ -60,9 +60,15 @@ func pmTag(b []byte) (uint32, bool) {
 }
 
 func runPlugin(r *Run, prop string) {
-	if prop == "C24" && r.W.Pick(5) == 0 {
-		runC24LegacyForge(r)
-		return
+	if prop == "C24" {
+		switch r.W.Pick(7) {
+		case 0:
+			runC24LegacyForge(r)
+			return
+		case 1:
+			runC24Fallback(r)
+			return
+		}
 	}
 	prots := []proto.Protocol{version.Minecraft_1_20_2.Protocol, version.Minecraft_1_20_3.Protocol, version.Minecraft_1_21.Protocol, version.Minecraft_1_20.Protocol, version.Minecraft_1_15.Protocol, version.Minecraft_1_19_4.Protocol, version.Minecraft_1_20_5.Protocol}
 	prot := prots[r.W.Pick(len(prots))]
